@@ -393,7 +393,7 @@ pub fn gen_layer(rng: &mut Rng, layer: usize, p_set_num: u32, p_set_den: u32, en
         t.keep_crlf = Some(rng.bool());
     }
     if set(rng) {
-        t.timeout_ms = Some(*rng.pick(&[1000u64, 2000, 1500, 60_000]));
+        t.timeout_ms = Some(*rng.pick(&[1000u64, 2000, 1500, 60_000, 0]));
     }
     if set(rng) {
         t.detached = Some(rng.bool());
@@ -434,7 +434,8 @@ pub fn gen_doc_layer(rng: &mut Rng, layer: usize, p_num: u32, p_den: u32, env_na
         d.shell = Some(rng.pick(&["bash", "/bin/sh", "zsh"]).to_string());
     }
     if rng.chance(p_num, p_den) {
-        d.total_timeout_ms = Some(*rng.pick(&[900_000u64, 5000, 10_000]));
+        // 0 is a value like any other: Some(0) wins over a lower layer's Some(n)
+        d.total_timeout_ms = Some(*rng.pick(&[900_000u64, 5000, 10_000, 0]));
     }
     if rng.chance(p_num, p_den) {
         d.prepend = (0..1 + rng.below(3)).map(|i| format!("p{layer}{i}.md")).collect();
